@@ -1,9 +1,11 @@
 import ParryModel.C09.DriverA
 import ParryModel.C09.DriverB
 import ParryModel.C09.DriverC
+import ParryModel.C09.DriverD
 /-! C09 protocol handlers: `DriverA` (intervals, box algebra, closed forms, spheres, SIMD lanes),
 `DriverB` (boxes / spheres of every shape kind, composites, swept boxes),
-`DriverC` (`find_root_intervals`, `Interval::sin/cos`). -/
+`DriverC` (`find_root_intervals`, `Interval::sin/cos`),
+`DriverD` (`SimdAabb::transform_by`, sphere `transform_by/loosened/tightened`, `Aabb::tightened`). -/
 namespace C09
 open Proto
 
@@ -12,6 +14,8 @@ def handler (fn : String) : Option Handler :=
   | some h => some h
   | none => match handlerB fn with
     | some h => some h
-    | none => handlerC fn
+    | none => match handlerC fn with
+      | some h => some h
+      | none => handlerD fn
 
 end C09
